@@ -435,8 +435,9 @@ impl ToMysqlValue for NaiveDate {
     fn to_mysql_bin<W: Write>(&self, w: &mut W, c: &Column) -> io::Result<()> {
         match c.coltype {
             ColumnType::MYSQL_TYPE_DATE => {
+                let year = u16::try_from(self.year()).map_err(|_| bad(self, c))?;
                 w.write_u8(4u8)?;
-                w.write_u16::<LittleEndian>(self.year() as u16)?;
+                w.write_u16::<LittleEndian>(year)?;
                 w.write_u8(self.month() as u8)?;
                 w.write_u8(self.day() as u8)
             }
@@ -484,13 +485,14 @@ impl ToMysqlValue for NaiveDateTime {
         match c.coltype {
             ColumnType::MYSQL_TYPE_DATETIME | ColumnType::MYSQL_TYPE_TIMESTAMP => {
                 let us = self.nanosecond() / 1_000;
+                let year = u16::try_from(self.year()).map_err(|_| bad(self, c))?;
 
                 if us != 0 {
                     w.write_u8(11u8)?;
                 } else {
                     w.write_u8(7u8)?;
                 }
-                w.write_u16::<LittleEndian>(self.year() as u16)?;
+                w.write_u16::<LittleEndian>(year)?;
                 w.write_u8(self.month() as u8)?;
                 w.write_u8(self.day() as u8)?;
                 w.write_u8(self.hour() as u8)?;
@@ -531,7 +533,10 @@ impl ToMysqlValue for Duration {
     fn to_mysql_bin<W: Write>(&self, w: &mut W, c: &Column) -> io::Result<()> {
         let s = self.as_secs();
         let d = s / (24 * 3600);
-        assert!(d <= 34);
+        if d > 34 {
+            // beyond the range of TIME (838:59:59)
+            return Err(bad(self, c));
+        }
         let h = (s % (24 * 3600)) / 3600;
         let m = (s % 3600) / 60;
         let s = s % 60;
